@@ -88,6 +88,19 @@ def run(chk, replay=None):
         jobs.append(("c18.free", None, {"mode": "llmnr-client", "clients": 10, "rounds": 2 if tier == "quick" else 8, "seed": chk.seed,
                                         "trace": os.path.join(d, "llmnr-client.trace")}, "free_llmnr-client", True))
 
+        # ---- specification growth (drift only): what the servers ANSWER = packet layer composed with the name table
+        g4 = os.path.join(d, "g04.ndjson")
+        r = vlib.run_tlc("NameServerSem", vlib.cfg("G04_sem.cfg", MAXITEMS=2, NAMES='{"n1", "n2"}' if tier == "quick" else '{"n1", "n2", "n3"}'),
+                         emit_to=g4, timeout=900)
+        chk.add_tlc("growth_nssem_graph", r)
+        jobs.append(("g04.nssem", g4, {"kinds": "udp,server,tcp"}, "growth_nssem", False))
+        if tier == "thorough":
+            ag = vlib.run_tlc("NameServerSem", vlib.cfg("G04_agree.cfg", NOOWNER="FALSE"), timeout=600)
+            chk.add_tlc("growth_nssem_functional_calls_are_nametable_actions", ag)
+            gg = vlib.run_tlc("NameServerSem", vlib.cfg("G04_agree.cfg", NOOWNER="TRUE"), allow_violation=True, timeout=600)
+            if gg.violation != "FunctionalAgrees":
+                raise vlib.Infra("vacuity guard: FunctionalAgrees does not distinguish NoOwnerCheck")
+
         def one(job):
             drv, inp, opts, part, race = job
             res = os.path.join(d, part + ".res")
@@ -113,7 +126,8 @@ def run(chk, replay=None):
             chk.assumptions.append("the kernel reordered loopback datagrams in at least one schedule; those schedules gave no verdict")
         chk.assumptions += ["loopback UDP delivers datagrams of one socket pair in FIFO order", "'promptly' = Stop/Close returns within 3 s and no goroutine of the package is alive 2 s later",
                             "opcode 9 (refresh in the RFC 1002 4.2.4 diagram, unassigned in 4.2.1.1) is reported as drift only",
-                            "free-running executions sample real schedules; the race detector only sees accesses that occurred"]
+                            "free-running executions sample real schedules; the race detector only sees accesses that occurred",
+                            "growth (drift only): NameServerSem.tla, the content of the servers' responses over the complete request/response graph of 2 (thorough 3) names x 2 addresses, up to 2 items per request, on all three servers"]
     finally:
         shutil.rmtree(d, ignore_errors=True)
 
